@@ -78,7 +78,7 @@ pub fn generate(kind: &str, seed: u64, run: u64, thorough: bool) -> Scenario {
         }
         // occasionally long lists (repeated documents): error texts must name every failure
         if er.chance(1, 6) && (tp.len() + tn.len()) > 0 {
-            let n = 9 + er.below(10);
+            let n = if er.chance(1, 8) { *er.pick(&[65usize, 256, 300, 1001]) } else { 9 + er.below(10) };
             while tp.len() + tn.len() < n {
                 if !tp.is_empty() && er.chance(1, 2) {
                     let x = tp[er.below(tp.len())].clone();
@@ -90,6 +90,18 @@ pub fn generate(kind: &str, seed: u64, run: u64, thorough: bool) -> Scenario {
                     let x = tp[er.below(tp.len())].clone();
                     tn.push(x);
                 }
+            }
+        }
+        // an example whose keys are not strings
+        if er.chance(1, 10) {
+            let mut m = serde_yaml::Mapping::new();
+            m.insert(Yaml::Number(1.into()), Yaml::String("x".into()));
+            m.insert(Yaml::Bool(true), Yaml::String("y".into()));
+            m.insert(Yaml::String("a".into()), Yaml::String("foo".into()));
+            if er.chance(1, 2) {
+                tp.push(Yaml::Mapping(m));
+            } else {
+                tn.push(Yaml::Mapping(m));
             }
         }
         // the same document in both lists
@@ -323,6 +335,22 @@ pub fn execute(sc: &Scenario) -> Outcome {
                             );
                         }
                     }
+                }
+            }
+            // validating again, a clone, and a reloaded copy must say the same
+            let first = guarded(|| r.validate().map_err(|e| e.to_string()));
+            let again = guarded(|| r.validate().map_err(|e| e.to_string()));
+            let cloned = guarded(|| r.clone().validate().map_err(|e| e.to_string()));
+            if let (Ok(a1), Ok(a2), Ok(a3)) = (&first, &again, &cloned) {
+                if a1 != a2 || a1 != a3 {
+                    push_violation(
+                        &mut vs,
+                        Violation::new(
+                            "validate_not_repeatable",
+                            if *sw == 0 { "unoptimised".into() } else { "optimised".into() },
+                            format!("validate() of the {} rule: first {:?}, second {:?}, on a clone {:?}", which, a1, a2, a3),
+                        ),
+                    );
                 }
             }
             if n_examples > 0 {
